@@ -121,6 +121,7 @@ def r_sign_program(ctx):
     env.setdefault("self.list_of_psd", [psds[0]])              # the PEP-level LMIs are only some of the tracked ones
     env.setdefault("self.list_of_constraints", [cons[1]])
     it = IndexInterp(env, on_call=on_call)
+    it.home = (repo, rec._module, "PEP")
     it.symbolic_truth = False          # numeric diagnostics (is the gap large? is an eigenvalue negative?) are not followed
 
     # `.decomposition_dict` of the final expression: a dict whose constant entry stands for "the constant term of <that expression>"
@@ -144,6 +145,7 @@ def r_sign_program(ctx):
     for t in tracked:
         env2["self." + t] = list(env["self." + t])
     it2 = IndexInterp(env2, on_call=on_call)
+    it2.home = (repo, rec._module, "PEP")
     it2.symbolic_truth = False
     orig2 = it2.ev
 
